@@ -155,6 +155,19 @@ Tamper(S, kind, n, g2) ==
     ELSE IF kind = "drop_nodeid" THEN Ok([S EXCEPT !.doc.noid = @ \cup {n}])
     ELSE Ok([S EXCEPT !.doc.stamp = Upd(@, n, g2)])
 
+\* What the serialised text itself must carry (read back with plain networkx/lxml, not with FIM): every node with its
+\* node id, graph id, class and properties, every edge with class and properties, and - in GraphML - the label markup
+\* the persistent (Neo4j) importer needs on EVERY node and edge.
+DocView(S, g, fmt) ==
+    [n |-> [x \in Nids(S, g) |-> [cls |-> S.n[<<g, x>>].cls, props |-> S.n[<<g, x>>].props, gid |-> g,
+                                  labels |-> IF fmt = "graphml" THEN ":GraphNode:" \o S.n[<<g, x>>].cls ELSE "-"]],
+     e |-> [ek \in {{k[2] : k \in kk} : kk \in EKeysOf(S, g)} |->
+               LET r == S.e[{<<g, x>> : x \in ek}]
+               IN  [cls |-> r.cls, props |-> r.props, label |-> IF fmt = "graphml" THEN r.cls ELSE "-"]]]
+
+\* validate_graph: every node and edge has a class (true of every representable store); an empty graph cannot be listed
+Validate(S, g) == IF KeysOf(S, g) = {} THEN Fail(S, QErr) ELSE Ok(S)
+
 \* entry in {"string","file"}: caller chooses the id and every node must carry a NodeID;
 \* {"string_direct","file_direct"}: id read from the document, which must carry exactly one graph id
 \* (node ids are a documented precondition of the direct entries, so tampered-NodeID documents are not fed to them).
@@ -316,6 +329,8 @@ Apply(S, o) ==
       [] o.op = "Export"          -> Export(S, o.g)
       [] o.op = "Import"          -> Import(S, o.entry, o.h)
       [] o.op = "Tamper"          -> Tamper(S, o.kind, o.n, o.g2)
+      [] o.op = "ExportDoc"       -> Export(S, o.g)
+      [] o.op = "Validate"        -> Validate(S, o.g)
       [] o.op = "Clone"           -> Clone(S, o.g, o.h)
       [] o.op = "MergeNodes"      -> MergeNodes(S, o.g, o.n, o.h, o.pol)
       [] o.op = "GetNodeProps"    -> GetNodeProps(S, o.g, o.n)
@@ -341,8 +356,10 @@ HasListValue(S, g) ==
     \/ \E ek \in EKeysOf(S, g) : \E p \in DOMAIN S.e[ek].props : IsListTok(S.e[ek].props[p])
 ApplyOn(be, fmt, S, o) ==
     IF be = "disjoint" /\ o.op = "MergeNodes" THEN Fail(S, RErr)
-    ELSE IF fmt = "graphml" /\ o.op \in {"Export", "Clone"} /\ HasListValue(S, o.g) /\ (o.op = "Export" \/ FALSE)
+    ELSE IF fmt = "graphml" /\ o.op \in {"Export", "ExportDoc"} /\ HasListValue(S, o.g)
          THEN Fail(S, "NetworkXError")
+    ELSE IF o.op = "ExportDoc" /\ KeysOf(S, o.g) # {}
+         THEN R([S EXCEPT !.doc = DocOf(S, o.g)], "ok", [k |-> "doc", v |-> DocView(S, o.g, fmt)])
     ELSE Apply(S, o)
 
 \* Named deviations: places where the implementation is known to differ from the reference semantics.  A trace
@@ -364,6 +381,19 @@ Deviation(be, S, o, out, T) ==
     ELSE IF o.op = "Clone" /\ KeysOf(S, o.g) = {} /\ T.n = S.n /\ T.e = S.e /\ out \in {"AttributeError", "ok"}
     THEN "CloneOfMissingGraph"
     ELSE ""
+
+\* Named deviation (known finding): GraphML text is re-parsed while the label markup is added, and XML end-of-line
+\* normalisation turns CR and CR LF inside property values into LF.  The recorder names the normalised form of a
+\* value class "@x" as "@x~lf".
+NormCR(v) == IF v \in {"s:@cr", "s:@crlf"} THEN v \o "~lf" ELSE v
+NormProps(pp) == [p \in DOMAIN pp |-> NormCR(pp[p])]
+HasCR(pp) == \E p \in DOMAIN pp : pp[p] \in {"s:@cr", "s:@crlf"}
+\* expected store T with the values of graph h normalised
+NormGraph(T, h) ==
+    [T EXCEPT !.n = [k \in DOMAIN T.n |-> IF k[1] = h THEN [T.n[k] EXCEPT !.props = NormProps(@)] ELSE T.n[k]],
+              !.e = [ek \in DOMAIN T.e |-> IF \A k \in ek : k[1] = h THEN [T.e[ek] EXCEPT !.props = NormProps(@)] ELSE T.e[ek]]]
+GraphHasCR(T, h) == \/ \E k \in KeysOf(T, h) : HasCR(T.n[k].props)
+                    \/ \E ek \in EKeysOf(T, h) : HasCR(T.e[ek].props)
 
 \* Graph ids an operation is allowed to touch (frame condition of C04)
 Touched(o) ==
